@@ -730,7 +730,15 @@ def run_vars(case):
                     for (a, b) in itertools.product(sorted(coords["a"],
                                                            key=str),
                                                     sorted(coords["b"])):
-                        got = float(ds[nm].sel(a=a, b=b).values)
+                        try:
+                            got = float(ds[nm].sel(a=a, b=b).values)
+                        except KeyError:
+                            core.violated(
+                                "coordinate-labels",
+                                f"step {k}, {tag}: the labels a={a!r}, "
+                                f"b={b!r} harvested before are not in the "
+                                f"dataset: a={ds['a'].values.tolist()}, "
+                                f"b={ds['b'].values.tolist()}")
                         if (a, b) in locs_j:
                             require(got == vars_value(j, a, b),
                                     "harvested-value",
